@@ -6,7 +6,7 @@ set -u
 WT="$1"; K="$2"; NAME="$3"
 P="$WT/out/patch$K.diff"; D="$WT/out/demo$K.rs"; M="$WT/out/meta$K.json"
 [ -f "$P" ] && [ -f "$D" ] || { echo "missing $P or $D"; exit 2; }
-C=/tmp/confirm-wt
+C=${CONFIRM_WT:-/tmp/confirm-wt}
 [ -d "$C" ] || git -C /repo worktree add -q --detach "$C" HEAD
 cd "$C" && git checkout -q --detach "$(git -C /repo rev-parse HEAD)" && git checkout -- . && rm -rf tests
 res() { echo "$1" >> /tmp/confirm-$NAME.log; echo "$1"; }
@@ -23,6 +23,6 @@ git checkout -- .
 d2="$(timeout 600 cargo test --offline --test demo 2>&1 | grep -E '^test result|SIGABRT|overflowed|error\[' | head -3 | tr '\n' ' ')"; res "demo-without-patch: $d2"
 rm -rf tests
 S=/verif/seeded/$NAME; mkdir -p "$S"; cp "$P" "$S/patch.diff"; cp "$D" "$S/demo.rs"; [ -f "$M" ] && cp "$M" "$S/agent-meta.json"
-cd /verif && ./tools/try_mutant.sh "$S/patch.diff" > /tmp/detect-$NAME.log 2>&1
-tail -1 /tmp/detect-$NAME.log >> /tmp/confirm-$NAME.log
-grep -E "rc=1|rc=2|FIRED" /tmp/detect-$NAME.log
+cd /verif && ./tools/try_mutant.sh "$S/patch.diff" > /tmp/detect${DETECT_TAG:-}-$NAME.log 2>&1
+tail -1 /tmp/detect${DETECT_TAG:-}-$NAME.log >> /tmp/confirm-$NAME.log
+grep -E "rc=1|rc=2|FIRED" /tmp/detect${DETECT_TAG:-}-$NAME.log
